@@ -492,11 +492,16 @@ pub struct Runner {
     pub ms: crate::monitors::MonState,
     /// every state-changing line executed so far (for replaying the same prefix on a twin)
     pub log: Vec<String>,
+    /// fault enumeration bookkeeping: the armed position, the line being re-attempted, and the positions at which
+    /// that line was rejected since the state last changed
+    pub armed: Option<u64>,
+    pub attempt_line: String,
+    pub rejected_at: Vec<u64>,
 }
 
 impl Runner {
     pub fn new(cfg: WorldCfg) -> Runner {
-        Runner { h: Hist::new(cfg), ms: Default::default(), log: vec![] }
+        Runner { h: Hist::new(cfg), ms: Default::default(), log: vec![], armed: None, attempt_line: String::new(), rejected_at: vec![] }
     }
     pub fn first_snap(&mut self, o: &mut Out) {
         let s = self.h.exec_line("snap");
@@ -515,6 +520,42 @@ impl Runner {
             crate::monitors::tx_monitors(&self.h, &mut self.ms, &before, line, &res, &mut mons);
             crate::monitors::state_monitors(&self.h, &mut self.ms, &mut mons);
             for m in mons { o.line(&m, "ok"); }
+            // ---- fault enumeration monitors (C20)
+            let kind = crate::monitors::parse_tx(line).map(|t| t.kind).unwrap_or(if line.starts_with("send") { "send".into() } else { "other".into() });
+            let armed = self.armed.take();
+            let mut final_attempt = armed.is_none() && line.starts_with("tx ");
+            if let Some(k) = armed {
+                let hit = self.h.last_calls >= k;
+                o.line(&format!("mon_fault_outcome {} {} {}", hit as u8, (res == "ok") as u8, kind), "ok");
+                if self.attempt_line != line { self.attempt_line = line.to_string(); self.rejected_at.clear(); }
+                if hit && res != "ok" { self.rejected_at.push(k); }
+                if hit && res == "ok" { self.rejected_at.clear(); }
+                // an attempt that did not reach the armed call ran fault-free: it is the real one
+                if !hit { final_attempt = true; }
+            }
+            if final_attempt {
+                if self.attempt_line == line && res == "ok" && (kind == "createfarm" || kind == "closefarm") {
+                    // the refunds of the farms this transaction closes are its LAST bank calls; an attempt in which one
+                    // of THEM was made to fail must not have been rejected (the failure of such a refund is tolerated)
+                    let after = &self.h.last_obs;
+                    let refunds = before.farms.iter().filter(|f| {
+                        let gone = match after.farms.iter().find(|g| g.identifier == f.identifier) {
+                            None => true,
+                            Some(g) => g.owner != f.owner || g.start_epoch != f.start_epoch || g.claimed_amount < f.claimed_amount,
+                        };
+                        gone && f.farm_asset.amount > f.claimed_amount
+                    }).count() as u64;
+                    let calls = self.h.last_calls;
+                    if refunds > 0 {
+                        let blocked = self.rejected_at.iter().filter(|x| **x + refunds > calls && **x <= calls).count();
+                        o.line(&format!("mon_refund_tolerated {} {} {} {}", kind, calls, refunds, blocked), "ok");
+                    }
+                }
+                self.attempt_line.clear();
+                self.rejected_at.clear();
+            }
+        } else {
+            self.armed = line.split_whitespace().nth(1).and_then(|x| x.parse().ok());
         }
         res
     }
